@@ -26,7 +26,7 @@ THEOREMS = ["final_step_bound", "variance_gives_delta", "converged_rowsums_bound
             "diag_rowsums_not_flat", "trans_rowsums_not_flat", "masks_code_eq_spec",
             "applyUpdate_nonneg", "applyUpdate_zero_iff", "icLoop_invariant", "others_positive",
             "mask_iff_partial", "mask_iff", "icLoop_emptied_iff", "margVec_pattern", "balance_genome_mask_iff",
-            "maskedBias_zero_iff", "rowsumTouch_eq", "provedInterval_sound"]
+            "maskedBias_zero_iff", "rowsumTouch_eq", "provedInterval_sound", "madcut_real"]
 LEVELS = {"model": "unit", "marginalize": "unit", "masks": "top", "flat": "top", "run": "top", "stored": "top",
           "cli": "top"}
 DESCRIBE = {
@@ -176,6 +176,11 @@ def _model(case):
     m = drv().ask("C10.balance", **_args(case))
     if "err" in m:
         raise AssertionError("generator produced a case outside the model's domain")
+    # L1 run vs the static rule (theorems mask_iff / others_positive): Lean against Lean
+    e = drv().ask("C10.expect", **_args(case))
+    for x, exp in zip(m["bias"], e["code"]):
+        if (x is None) != (exp == "nan") or (x is not None and not (x[0] > 0)):
+            raise AssertionError("model run disagrees with `expectations`: theorem mask_iff/others_positive contradicted")
     gap = fl(m["min_gap"])
     if gap is not None and gap < TIE:
         return {"stats": {"ties_skipped": 1}}
@@ -606,7 +611,7 @@ def cases(tier, rng):
         rng.shuffle(fs)
         yield "marginalize", {"n": n, "offsets": offs, "pixels": px, "filters": fs, "ignore_diags": rng.randint(0, 3)}
     # small cases: the same case is run through the unit comparison and the two top-level checks
-    for k in range(6000 if thorough else 600):
+    for k in range(5000 if thorough else 600):
         c = _small_case(rng)
         yield "model", c
         yield "masks", c
@@ -614,7 +619,7 @@ def cases(tier, rng):
         if k % (25 if thorough else 60) == 0:
             yield "stored", c
     # float-only runs
-    for k in range(5000 if thorough else 400):
+    for k in range(4000 if thorough else 400):
         c = _float_case(rng, 40 if thorough else 28)
         yield "run", c
         if k % (50 if thorough else 120) == 0:
@@ -713,8 +718,8 @@ def escalate(name, case, rng):
         r = tops(c)
         if r:
             return r
-    for k in range(1500):
-        c = _small_case(rng) if k % 2 else _float_case(rng, 20)
+    for k in range(600):
+        c = _small_case(rng) if k % 2 else _float_case(rng, 16)
         r = tops(c)
         if r:
             return r
